@@ -1731,3 +1731,17 @@ func elementLoop(info *types.Info, loop ast.Stmt) (*ast.BlockStmt, types.Object)
 	}
 	return nil, nil
 }
+
+// flatStmts: a statement list with plain nested blocks spliced in (a block that is a statement of its own only limits
+// the scope of its declarations; its statements simply follow one another)
+func flatStmts(list []ast.Stmt) []ast.Stmt {
+	var out []ast.Stmt
+	for _, st := range list {
+		if b, ok := st.(*ast.BlockStmt); ok {
+			out = append(out, flatStmts(b.List)...)
+		} else {
+			out = append(out, st)
+		}
+	}
+	return out
+}
